@@ -6,6 +6,10 @@
    far; the raise decision is C06's [decide].  Both __enter__ and __exit__ build their RPC with
    raise_mode=RaiseMode.ERRORS and the manager's device handler (its exempt patterns [c]); requests
    made by the body through the manager use the manager's raise mode [mode].
+   A body may also fire requests asynchronously and leave them IN FLIGHT ([AReq]): the server receives them (an event,
+   which consumes the server's answer for that position of the history) but the caller neither waits for nor reads the
+   reply, whenever it arrives (while the body runs, during the unlock's wait, later): LockContext's own Lock / Unlock
+   are always synchronous (async_mode is not forwarded by Manager.locked).
    [exec] returns the events (requests) the program adds to the history and how it ends.
    Definitions only; proofs in Proofs/LockCtxProofs.v. *)
 From NC Require Import Model.Base Model.RpcErrors.
@@ -31,7 +35,10 @@ Inductive prog : Type :=
 | Req (kind : N) (target : bytes)       (* a request through the manager (lock/unlock/get-config ...) *)
 | Seq (p q : prog)                      (* p; q *)
 | Locked (target : bytes) (body : prog) (* with m.locked(target): body *)
-| Try (p : prog).                       (* try: p  except Exception: pass *)
+| Try (p : prog)                        (* try: p  except Exception: pass *)
+| AReq (kind : N) (target : bytes).     (* an ASYNCHRONOUS request whose RPC object the caller drops (manager in
+                                           async_mode, or RPC(..., async_mode=True).request()): RPC._request sends and
+                                           returns at once; the reply is never looked at by the caller *)
 
 Definition is_raise (o : outcome) : bool := match o with Return => false | _ => true end.
 
@@ -53,6 +60,7 @@ Fixpoint exec (orc : oracle) (c : pclass) (mode : N) (p : prog) (hist : list eve
       | Exc x => (t1, Exc x)
       end
   | Try p => let (t1, _) := exec orc c mode p hist in (t1, Normal)
+  | AReq k t => ([mkEv k t false false], Normal)   (* sent, left in flight: nothing of its reply reaches the caller *)
   | Locked t body =>
       (* __enter__: Lock(..., raise_mode=ERRORS).request(target) *)
       let (t1, r1) := request orc c MODE_ERRORS true K_LOCK t hist in
